@@ -1,4 +1,4 @@
-\* process group: two running members of capacity 1, join/leave, 3 group sends, stop of a member
+\* process group: two running members of capacity 1, join/leave/len (2 operations), 3 group sends, stop of a member
 CONSTANTS
   Actors = {1, 2}
   Procs = {0, 1, 2}
@@ -18,7 +18,7 @@ CONSTANTS
   MsgsPer = 3
   StopsPer = 1
   LooksPer = 0
-  JoinsPer = 3
+  JoinsPer = 2
   SupChoices = {FALSE}
   SupProc = 99
   SupCap = 1
